@@ -10,6 +10,13 @@
 use vstd::prelude::*;
 verus! {
 
+/// R6 target: panic!/unreachable!/unimplemented!/todo! become a call that must be proved unreachable.
+/// (No such macro occurs in the extracted functions today: R6 reports 0 hits.)
+#[verifier::external_body]
+pub fn vpanic() -> !
+    requires false
+{ panic!() }
+
 // ---------------------------------------------------------------------------------------------
 // Tok: opaque stand-in for the `&'a str` tokens handed out by the tokenizer.  String *content* is
 // outside Verus; the only facts kept are "is it empty" and "which literal of the grammar is it".
@@ -349,7 +356,7 @@ fn try_parse(parser: &mut VParser) -> (r: Result<Option<Self>, ParseError>)
                             parser.len() - parser.pos(),
 {
                         let value = parser.eat_word();
-                        if value.eq_lit(Lit::LParen) {
+                        if value.eq_lit(Lit::RParen) {
                             break;
                         }
                         values.push(value.to_string());
@@ -647,7 +654,7 @@ fn parse_declaration_list(
             let dec = parse_declaration(parser)?;
             match dec {
                 Some(d) => declarations.push(d),
-                None => break,
+                None => continue,
             }
         }
 
